@@ -246,7 +246,7 @@ func checkRedirect(fatalf func(string, ...any), rec *httptest.ResponseRecorder, 
 }
 
 func TestC13Sequential(t *testing.T) {
-	hx.Check(t, hx.Scale(20000, 1000000), func(t *rapid.T) {
+	hx.Check(t, hx.Scale(50000, 1000000), func(t *rapid.T) {
 		x := genTmpl(t)
 		r := genReq(t, x)
 		cfg := x.routeLine("redir")
